@@ -369,10 +369,11 @@ def rule_PN(ctx, tier, scope="all", only=None, name=None):
             if cls == "pn4":
                 why = _same_section(ctx, b, bb, term)
                 # DB methods that are written right after a successful read of the same key in the same section
-                if why is None and pname.endswith(("update_tracker_status", "update_appointment", "load_tracker")) and b.id.endswith(("check_confirmations", "rebroadcast_stale_txs", "store_appointment")):
+                owner = b.id.split("::{closure")[0]  # a closure of an iterator chain runs in its function's critical section
+                if why is None and pname.endswith(("update_tracker_status", "update_appointment", "load_tracker")) and owner.endswith(("check_confirmations", "rebroadcast_stale_txs", "store_appointment")):
                     # key drawn from a query / existence test made under the same, still held DBM guard
                     lk = [x for x in sites(b, "std::sync::Mutex::<T>::lock")]
-                    guard_ok = R.CLASSES["DBM"] in bl.classes_at_term(bb) and len([1 for (bi, _, c, _, _) in ctx.locks.acquire_sites if bi == b.id and c == R.CLASSES["DBM"]]) == 1
+                    guard_ok = R.CLASSES["DBM"] in bl.classes_at_term(bb) and len([1 for (bi, _, c, _, _) in ctx.locks.acquire_sites if bi.split("::{closure")[0] == owner and c == R.CLASSES["DBM"]]) == 1
                     if guard_ok:
                         why = "key read under the same DBM guard (single acquisition in this function)"
                 if why is None and b.id.endswith("handle_reorged_txs") and pname.endswith("update_tracker_status"):
